@@ -198,6 +198,41 @@ def run_site(spec: dict) -> dict:
     return {"ok": True, "sites": out}
 
 
+SEED_LADDER = [
+    {"int": 0}, {"int": 1}, {"int": 2 ** 31 - 2}, {"int": 2 ** 31 - 1}, {"int": 2 ** 31}, {"int": 2 ** 32 - 2}, {"int": 2 ** 32 - 1},
+    {"np": "int64", "v": 12345}, {"np": "int32", "v": 7}, {"np": "uint32", "v": 2 ** 32 - 1}, {"np": "int64", "v": 2 ** 32 - 1},
+    {"tuple": [2 ** 32 - 1, 7, 2 ** 31]}, {"tuple": [0]}, {"list": [2 ** 32 - 1, 2 ** 32 - 2]}, {"tuple_np": [3, 2 ** 31]},
+    {"int": 2 ** 32}, {"int": -1},
+]
+
+
+def decode_seed(d: dict):
+    import numpy as np
+
+    if "int" in d:
+        return int(d["int"])
+    if "np" in d:
+        return getattr(np, d["np"])(d["v"])
+    if "tuple" in d:
+        return tuple(d["tuple"])
+    if "list" in d:
+        return list(d["list"])
+    return tuple(np.int64(v) for v in d["tuple_np"])
+
+
+def run_seeds(spec: dict) -> dict:
+    """one generator, one shape, every seed of `spec["ladder"]` (default SEED_LADDER), mask and ACS request"""
+    out = []
+    for d in spec.get("ladder", SEED_LADDER):
+        for racs in (False, True):
+            try:
+                f = _make(spec)
+                out.append({"seed": d, "return_acs": racs, "res": _digest(f(tuple(spec["shape"]), seed=decode_seed(d), return_acs=racs))})
+            except Exception as e:  # noqa: BLE001
+                out.append({"seed": d, "return_acs": racs, "res": _err(e)})
+    return {"ok": True, "seeds": out}
+
+
 def run(spec: dict) -> dict:
     """worker entry point: dispatch on spec["kind"]"""
-    return {"forms": run_forms, "history": run_history, "site": run_site}[spec["kind"]](spec)
+    return {"forms": run_forms, "history": run_history, "site": run_site, "seeds": run_seeds}[spec["kind"]](spec)
